@@ -156,7 +156,27 @@ def palette(rng, allow_inf=True):
 
 # explicit numpy integer dtypes (what np.array(..., np.int8) tables of the unit tests use)
 NARROW = {"int8": (-128, 127), "uint8": (0, 255), "int16": (-2 ** 15, 2 ** 15 - 1),
-          "int32": (-2 ** 31, 2 ** 31 - 1)}
+          "int32": (-2 ** 31, 2 ** 31 - 1), "int64": (-2 ** 63, 2 ** 63 - 1)}
+
+
+def edge_table(rng, dtype, n):
+    """entries that fit the integer dtype but whose pairwise sums leave its range (the code adds
+    Python numbers, so nothing may wrap around)"""
+    lo, hi = NARROW[dtype]
+    out = []
+    for _ in range(n):
+        k = rng.random()
+        if dtype == "int64":
+            big = 2 ** 62 + rng.randint(-1000, 1000)
+        else:
+            big = hi - rng.randint(0, hi // 3)
+        if k < 0.45:
+            out.append(big)
+        elif k < 0.75 and lo < 0:
+            out.append(-big)
+        else:
+            out.append(rng.randint(0, 20))
+    return out
 # values a narrow table must be widened for
 WIDE_VALUES = [{"f": "0.1"}, {"f": "1234.567"}, {"f": "2.5"}, {"f": "-0.25"}, {"f": "65504.06"},
                16777217, -2500000000, int(1e300), 300, -5, 70000, 2 ** 40, "inf", "-inf"]
@@ -244,6 +264,10 @@ def gen(rng, n, tier):
             # keep the joined table small
             while _joined_size(c) > 81:
                 c["u2"] = gen_rel(rng, vs, arity=1)
+            if rng.random() < 0.25:     # fixed-width integer tables whose sums leave the dtype
+                dt = rng.choice(["int8", "int8", "int16", "int32"])
+                for key in ("u1", "u2"):
+                    c[key] = dict(c[key], dtype=dt, table=edge_table(rng, dt, len(c[key]["table"])))
         else:  # proj
             r = gen_rel(rng, vs, arity=rng.choice([1, 1, 2, 2, 3, 3, 4]))
             c["rel"] = r
